@@ -39,7 +39,8 @@ trap cleanup EXIT
 
 fails=0
 fail() { echo "FAIL $*"; fails=$((fails + 1)); }
-note() { echo "-- $*"; }
+T0=$(date +%s)
+note() { echo "-- [$(( $(date +%s) - T0 ))s] $*"; }
 
 # ------------------------------------------------------------------ 1. build
 note "building go2coq"
@@ -148,16 +149,9 @@ note "$total functions validated"
 
 # ------------------------------------------------------------------ 4. rejections, example proof
 note "rejections (every line of testdata/reject/reject.list must be refused)"
-while IFS='|' read -r fn cfg want; do
-  case "$fn" in ''|'#'*) continue ;; esac
-  if out="$("$G" -dir "$T/reject" -module Gen_reject -o "$W/Gen_reject.v" -funcs "$fn" ${cfg:+-config "$T/reject/$cfg"} 2>&1)"; then
-    fail "reject: $fn was accepted"
-  elif ! echo "$out" | grep -qF -- "$want"; then
-    fail "reject: $fn refused with an unexpected message: $out (wanted: $want)"
-  else
-    echo "OK reject $fn ($want)"
-  fi
-done <"$T/reject/reject.list"
+"$G" -dir "$T/reject" -reject-list "$T/reject/reject.list" >"$W/reject.log" 2>&1 || fails=$((fails + 1))
+cat "$W/reject.log"
+[ "$(grep -c '^OK reject' "$W/reject.log")" -ge 50 ] || fail "reject: fewer than 50 rejection cases ran"
 
 note "example proof"
 cp "$T/Example_proof.v" "$W/gen/Example_proof.v"
